@@ -62,7 +62,9 @@ Definition numericdate (t : dtime) : res Z :=
 (* ------------------------------------------------------------------ *)
 (* claims handed to jwt.encode: a dict whose top-level values are JSON-ish
    Python values or datetime objects *)
-Inductive cval := CV (v : pv) | CDt (t : dtime).
+(* CObj n: any other Python object (uuid.UUID, decimal.Decimal, ...), identified by a
+   number; only a JSONEncoder subclass with a default() method can serialize it *)
+Inductive cval := CV (v : pv) | CDt (t : dtime) | CObj (n : N).
 Definition claims := list (str * cval).
 Definition hdr := list (str * pv).
 
@@ -83,12 +85,13 @@ Fixpoint convert_keys (ks : list str) (c : claims) : claims * option exn :=
       end
   end.
 
-(* the dict as json.dumps sees it; a datetime left anywhere is "not JSON serializable" *)
+(* the claims as a JSON value, when every member is one (no datetime / foreign object left) *)
 Fixpoint claims_pv (c : claims) : option (list (str * pv)) :=
   match c with
   | [] => Some []
   | (k, CV v) :: r => match claims_pv r with Some d => Some ((k, v) :: d) | None => None end
   | (_, CDt _) :: _ => None
+  | (_, CObj _) :: _ => None
   end.
 
 (* structural equality of values (used by the oracle tables of the Cases file
@@ -156,9 +159,11 @@ Record enc_out := mkeo {
 }.
 
 Section Jwt.
-  (* json.dumps(obj, ensure_ascii=False, separators=(",", ":")) followed by to_bytes *)
-  Variable json_dumps : pv -> res bytes.
-  (* json.loads(payload) *)
+  (* json.dumps(claims, ensure_ascii=False, separators=(",", ":"), cls=encoder_cls) followed by
+     to_bytes, for the encoder_cls in use; it sees the converted claims dict as it is (a
+     datetime or foreign object left in it is a TypeError unless the encoder's default() takes it) *)
+  Variable json_dumps : claims -> res bytes.
+  (* json.loads(payload, cls=decoder_cls) for the decoder_cls in use: ANY function *)
   Variable json_loads : bytes -> res pv.
   (* serialize_compact | encrypt_compact: gets the dict object built by encode
      and may write into it (kid of a key picked from a key set, epk, p2s, ...):
@@ -173,11 +178,7 @@ Section Jwt.
   Definition convert_claims (c : claims) : claims * res bytes :=
     match convert_keys nd_keys c with
     | (c', Some e) => (c', Err e)
-    | (c', None) =>
-        (c', match claims_pv c' with
-             | None => Err EType
-             | Some d => json_dumps (PDict d)
-             end)
+    | (c', None) => (c', json_dumps c')
     end.
 
   Definition encode (h : hdr) (c : claims) : enc_out :=
@@ -199,3 +200,35 @@ Section Jwt.
         end
     end.
 End Jwt.
+
+(* ------------------------------------------------------------------ *)
+(* jwt.encode(header, claims, key, algorithms, registry, encoder_cls) and
+   jwt.decode(value, key, algorithms, registry, decoder_cls) with their optional
+   arguments.  Keys, registries, encoder and decoder classes are identified by
+   numbers (object identity); of a registry the model only looks at
+   isinstance(registry, JWERegistry). *)
+Record targs := mkta {
+  ta_key : N;                          (* the key argument, passed through unchanged *)
+  ta_algs : option (list str);         (* algorithms= *)
+  ta_reg : option (bool * N)           (* registry=: (isinstance(_, JWERegistry), identity) *)
+}.
+
+Definition reg_is_jwe (r : option (bool * N)) : bool :=
+  match r with Some (true, _) => true | _ => false end.
+
+Section JwtApi.
+  Variable json_dumps : option N -> claims -> res bytes.      (* by encoder_cls *)
+  Variable json_loads : option N -> bytes -> res pv.          (* by decoder_cls *)
+  Variable jws_encode jwe_encode : hdr -> bytes -> targs -> res bytes * hdr.
+  Variable jws_decode jwe_decode : bytes -> targs -> res (hdr * bytes).
+
+  Definition select_encode (a : targs) : hdr -> bytes -> res bytes * hdr :=
+    fun w p => if reg_is_jwe (ta_reg a) then jwe_encode w p a else jws_encode w p a.
+  Definition select_decode (a : targs) : bytes -> res (hdr * bytes) :=
+    fun t => if reg_is_jwe (ta_reg a) then jwe_decode t a else jws_decode t a.
+
+  Definition jwt_encode (h : hdr) (c : claims) (a : targs) (encoder_cls : option N) : enc_out :=
+    encode (json_dumps encoder_cls) (select_encode a) h c.
+  Definition jwt_decode (tok : bytes) (a : targs) (decoder_cls : option N) : res (hdr * pv) :=
+    decode (json_loads decoder_cls) (select_decode a) tok.
+End JwtApi.
